@@ -68,14 +68,14 @@ func registerResolver() {
 	})
 	register(&PropSpec{
 		ID: "C02", Pkg: "argmapper",
-		Quick: []Shard{
+		Quick: []Shard{sh("HarnessShapes", "statically declared target whose struct reaches the marker only through an embedded struct: loose field values do not satisfy it", 0, 1),
 			world("HarnessC02", 1, 1, 2, 0, 0, 0), world("HarnessC02", 2, 1, 2, 0, 1, 0), world("HarnessC02", 3, 1, 1, 0, 9, 0), world("HarnessC02", 0, 1, 1, 11, 9, 0), world("HarnessC02", 1, 1, 1, 11, 1, 0), world("HarnessC02", 2, 1, 1, 11, 3, 1), world("HarnessC02", 5, 1, 1, 2121, 0, 0), world("HarnessC02", 100, 0, 0, 0, 1, 0), world("HarnessC02", 102, 0, 0, 0, 1, 0), world("HarnessC02", 103, 0, 0, 0, 1, 0), world("HarnessC02", 8, 1, 1, 0, 9, 0), world("HarnessC02", 8, 1, 1, 11, 1, 0), world("HarnessC02", 0, 1, 1, 21, 3, 0), world("HarnessC02", 109, 0, 0, 0, 1, 0),
 			sh("HarnessC02Static", "target struct with an embedded exported (non-marker) field that cannot be derived", 0, 0), sh("HarnessC02Static", "converter whose struct input has an underivable embedded exported field", 0, 1),
 		},
-		Thorough: []Shard{
+		Thorough: []Shard{sh("HarnessShapes", "statically declared target whose struct reaches the marker only through an embedded struct: loose field values do not satisfy it", 0, 1),
 			world("HarnessC02", 1, 1, 2, 0, 0, 0), world("HarnessC02", 2, 1, 2, 0, 1, 0), world("HarnessC02", 3, 1, 1, 0, 9, 0), world("HarnessC02", 0, 1, 1, 11, 9, 0), world("HarnessC02", 1, 1, 1, 11, 1, 0), world("HarnessC02", 2, 1, 1, 11, 3, 1), world("HarnessC02", 5, 1, 1, 2121, 0, 0), world("HarnessC02", 100, 0, 0, 0, 1, 0), world("HarnessC02", 102, 0, 0, 0, 1, 0), world("HarnessC02", 103, 0, 0, 0, 1, 0), world("HarnessC02", 3, 1, 2, 0, 9, 0), world("HarnessC02", 3, 1, 1, 11, 3, 0), world("HarnessC02", 0, 1, 1, 1111, 1, 0), world("HarnessC02", 0, 1, 1, 2121, 1, 0), world("HarnessC02", 0, 1, 2, 21, 1, 0), world("HarnessC02", 5, 1, 1, 212111, 0, 0), world("HarnessC02", 6, 1, 1, 2111, 1, 0), world("HarnessC02", 1, 1, 1, 91, 1, 0),
 		},
-		Covers:   []string{"C02.underivable-world"},
+		Covers:   []string{"C02.shapes-checked", "C02.underivable-world"},
 		Bounds:   []string{"as C01, restricted (by assumption) to worlds with a target parameter outside the least fixpoint of derivable values under the C01 matching table"},
 		Outside:  []string{"as C01"},
 		Assume:   common,
@@ -138,13 +138,13 @@ func registerResolver() {
 	})
 	register(&PropSpec{
 		ID: "C05", Pkg: "argmapper", SchedDependent: true,
-		Quick: []Shard{
+		Quick: []Shard{sh("HarnessShapes", "statically declared structs: marker last / in the middle, on the only derivation path (Call and Redefine)", 0, 0),
 			world("HarnessC05", 0, 1, 1, 11, 1, 102), world("HarnessC05", 0, 1, 1, 1111, 1, 0), world("HarnessC05", 1, 1, 1, 1111, 1, 1), world("HarnessC05", 0, 1, 1, 1121, 1, 0), world("HarnessC05", 101, 0, 0, 0, 9, 0, 2), world("HarnessC05", 104, 0, 0, 0, 0, 100, 2), world("HarnessC05", 106, 0, 0, 0, 1, 0, 2), world("HarnessC05", 5, 1, 1, 2111, 0, 0, 2), world("HarnessC05", 0, 1, 1, 91, 9, 0, 2), world("HarnessC05", 0, 1, 1, 11, 9, 0, 16), world("HarnessC05", 108, 0, 0, 0, 1, 0), world("HarnessC05", 9, 1, 1, 11, 1, 0),
 		},
-		Thorough: []Shard{
+		Thorough: []Shard{sh("HarnessShapes", "statically declared structs: marker last / in the middle, on the only derivation path (Call and Redefine)", 0, 0),
 			world("HarnessC05", 0, 1, 1, 11, 1, 102), world("HarnessC05", 0, 1, 1, 1111, 1, 0), world("HarnessC05", 1, 1, 1, 1111, 1, 1), world("HarnessC05", 0, 1, 1, 1121, 1, 0), world("HarnessC05", 101, 0, 0, 0, 9, 0, 2), world("HarnessC05", 104, 0, 0, 0, 0, 100, 2), world("HarnessC05", 106, 0, 0, 0, 1, 0, 2), world("HarnessC05", 5, 1, 1, 2111, 0, 0, 2), world("HarnessC05", 0, 1, 1, 91, 9, 0, 2), world("HarnessC05", 0, 1, 1, 1111, 1, 100), world("HarnessC05", 0, 1, 1, 111111, 1, 0), world("HarnessC05", 3, 1, 1, 11, 0, 0), world("HarnessC05", 3, 1, 0, 1111, 0, 0), world("HarnessC05", 0, 2, 1, 1111, 1, 2), world("HarnessC05", 4, 1, 1, 1111, 1, 0), world("HarnessC05", 5, 1, 2, 211111, 0, 0), world("HarnessC05", 5, 1, 1, 111111, 0, 0, 2), world("HarnessC05", 100, 0, 0, 0, 9, 0, 2), world("HarnessC05", 102, 0, 0, 0, 9, 0, 2), world("HarnessC05", 105, 0, 0, 0, 1, 100), world("HarnessC05", 105, 0, 0, 0, 9, 0),
 		},
-		Covers:   []string{"C05.call-returned", "C05.derivable-world", "C05.converter-used", "C05.stability-checked"},
+		Covers:   []string{"C05.shapes-checked", "C05.call-returned", "C05.derivable-world", "C05.converter-used", "C05.stability-checked"},
 		Bounds:   []string{"converter sets of up to 2 (quick) / 3 (thorough) converters with symbolic labels, including 2-cycles and bidirectional pairs (single-input) and acyclic 2-input converters", "stability: the same call repeated in one path under two independent iteration-order choices (per-site flips, or seeded vectors)"},
 		Outside:  []string{"more than 3 converters", "iteration orders outside the named policies"},
 		Assume:   common,
@@ -166,13 +166,13 @@ func registerResolver() {
 	})
 	register(&PropSpec{
 		ID: "C13", Pkg: "argmapper",
-		Quick: []Shard{
+		Quick: []Shard{sh("HarnessShapes", "statically declared target with an embedded exported type next to the marker: the missing embedded parameter is named by the error", 0, 2),
 			world("HarnessC13", 1, 1, 2, 0, 0, 0), world("HarnessC13", 3, 2, 1, 0, 1, 0), world("HarnessC13", 0, 1, 1, 11, 9, 0), world("HarnessC13", 2, 1, 1, 11, 3, 1), world("HarnessC13", 1, 2, 1, 11, 1, 0), world("HarnessC13", 5, 2, 1, 2111, 0, 0), world("HarnessC13", 107, 0, 0, 0, 9, 0), world("HarnessC13", 103, 0, 0, 0, 1, 0), world("HarnessC13", 6, 2, 1, 0, 1, 0, 4), world("HarnessC13", 6, 2, 0, 11, 1, 0, 4), world("HarnessC13", 1, 2, 1, 0, 3, 0, 8), world("HarnessC13", 0, 2, 1, 11, 9, 0, 16), world("HarnessC13", 0, 2, 1, 10, 9, 0), world("HarnessC13", 1, 2, 1, 1110, 1, 0),
 		},
-		Thorough: []Shard{
+		Thorough: []Shard{sh("HarnessShapes", "statically declared target with an embedded exported type next to the marker: the missing embedded parameter is named by the error", 0, 2),
 			world("HarnessC13", 1, 1, 2, 0, 0, 0), world("HarnessC13", 3, 2, 1, 0, 1, 0), world("HarnessC13", 0, 1, 1, 11, 9, 0), world("HarnessC13", 2, 1, 1, 11, 3, 1), world("HarnessC13", 1, 2, 1, 11, 1, 0), world("HarnessC13", 5, 2, 1, 2111, 0, 0), world("HarnessC13", 3, 2, 2, 11, 1, 0), world("HarnessC13", 0, 2, 1, 1111, 1, 0), world("HarnessC13", 6, 2, 1, 12, 1, 0, 4), world("HarnessC13", 7, 2, 1, 11, 1, 0), world("HarnessC13", 1, 2, 1, 91, 1, 0),
 		},
-		Covers:   []string{"C13.hopeless-world", "C13.error-checked"},
+		Covers:   []string{"C13.shapes-checked", "C13.hopeless-world", "C13.error-checked"},
 		Bounds:   []string{"template worlds as C01 restricted (by assumption) to worlds with a target parameter that no supplied value and no converter output can match"},
 		Outside:  []string{"as C01"},
 		Assume:   common,
